@@ -25,6 +25,9 @@ C['C07']=("Static analysis: decision tables of both DNS matcher scan loops (exha
 C['C12']=("Static analysis: the key length emitted by trie.Prefix2bin128 and the PrefixLen written by cidrToBpfLpmKey (real-build variant) are propagated by constant-propagation dataflow for every prefix length 0..128 / 0..32 and must equal bits+96·[IPv4]; probes always use the mapped /128 form; LPM set sharing is guarded by prefixesEqual; sibling emitters agree; the trie walk tests the leaf flag at every node; construction errors are consulted.",
  "Trusted: go/types, go/cfg, internal/fdt constant folding, the real-build overlay (bpf_stub.go residue) used to type-check bpf_utils.go. Not decided: rank/select trie arithmetic on concrete values, kernel LPM semantics.",
  "static analysis: finite decision table over an integer domain (exhaustive 162 pairs) by constant propagation over go/cfg, both build variants + guard dominance + sibling structural diff + loop back-edge must-pass-through")
+C['C14']=("Static analysis: error-only defaults of every filter/annotation/policy dispatch, the per-condition decision table of filterHit (constant propagation over its CFG), operand agreement inside the name and subtag branches, first-line-wins / co-append / index agreement in FilterAndAnnotate, and error flow to the control-plane constructor.",
+ "Trusted: go/types, go/cfg, internal/fdt. Not decided: regex/keyword matching on values; validation of filter parts that no node reaches (lazy by design).",
+ "static analysis: exhaustiveness (error-only defaults) + finite decision table by constant propagation over go/cfg + loop back-edge reachability + sibling operand agreement")
 def chk(pid):
     text,note,tech=C[pid]
     return {"property_id":pid,"quick_cmd":f"bin/daecheck -p {pid} -tier quick","thorough_cmd":f"bin/daecheck -p {pid} -tier thorough","evidence_file":f"/verif/evidence/{pid}.json",
